@@ -189,6 +189,23 @@ Theorem C03_dealer_consistent : forall (F : Type) (K : fops F), flaws K ->
 Proof. exact @dealer_consistent. Qed.
 Print Assumptions C03_dealer_consistent.
 
+(* ---- stored Lindell17 auxiliary information reloads unchanged, also when the holder has no qualified
+   two-party peer (both maps empty but PRESENT); an absent map is refused by the decoder ------------- *)
+Theorem C03_aux_roundtrip : forall (A B : Type) (pks : list (N * A)) (cts : list (N * B)),
+  map fst pks = map fst cts -> aux_decode (aux_encode pks cts) = Some (pks, cts).
+Proof. exact aux_roundtrip. Qed.
+Print Assumptions C03_aux_roundtrip.
+
+Theorem C03_aux_roundtrip_empty : forall (A B : Type),
+  aux_decode (aux_encode (@nil (N * A)) (@nil (N * B))) = Some ([], []).
+Proof. exact aux_roundtrip_empty. Qed.
+Print Assumptions C03_aux_roundtrip_empty.
+
+Theorem C03_aux_absent_refused : forall (A B : Type) (c : option (list (N * B))),
+  aux_decode (mk_aux_dto (@None (list (N * A))) c) = None.
+Proof. exact aux_absent_refused. Qed.
+Print Assumptions C03_aux_absent_refused.
+
 (* ---- non-vacuity: Z_7, g = 3, Shamir 2-of-3 rows (1, i), three parties with tapes of six scalars:
    the hypotheses of the theorems above hold (distinct shareholder ids, every dealing succeeds, so by
    C03_dkg_completes every party completes; {1,2} reconstructs with the Lagrange coefficients 2, -1) *)
